@@ -166,6 +166,8 @@ struct Carrier {
     write_accept: Option<usize>,
     split: Option<(Dir, u64)>,
     pending: Vec<(Dir, Op, u64)>,
+    /// both directions buffer written bytes until a flush completes (what a NoiseSocket / TLS carrier does)
+    buffered: bool,
 }
 
 impl Carrier {
@@ -178,6 +180,9 @@ impl Carrier {
     fn write1() -> Self {
         Carrier { write_accept: Some(1), ..Default::default() }
     }
+    fn buffered() -> Self {
+        Carrier { buffered: true, ..Default::default() }
+    }
     fn is_default(&self) -> bool {
         *self == Carrier::default()
     }
@@ -185,6 +190,7 @@ impl Carrier {
         json!({
             "read_chunk": self.read_chunk,
             "write_accept": self.write_accept,
+            "buffered": self.buffered,
             "split": self.split.map(|(d, k)| json!({"dir": d.name(), "at": k})),
             "pending": self.pending.iter().map(|(d, o, i)| json!({"dir": d.name(), "op": o.name(), "idx": i})).collect::<Vec<_>>(),
         })
@@ -193,6 +199,7 @@ impl Carrier {
         let mut c = Carrier::default();
         c.read_chunk = v["read_chunk"].as_u64().map(|x| x as usize);
         c.write_accept = v["write_accept"].as_u64().map(|x| x as usize);
+        c.buffered = v["buffered"].as_bool().unwrap_or(false);
         if let Some(s) = v["split"].as_object() {
             let d = Dir::parse(s["dir"].as_str().unwrap_or("")).ok_or("split.dir")?;
             c.split = Some((d, s["at"].as_u64().ok_or("split.at")?));
@@ -208,6 +215,7 @@ impl Carrier {
     }
     fn policy(&self, dir: Dir) -> pipe::Policy {
         let mut p = pipe::Policy::default();
+        p.deliver_on_flush = self.buffered;
         if let Some(c) = self.read_chunk {
             p.read_chunk = c;
         }
@@ -1086,7 +1094,7 @@ fn build_jobs(thorough: bool) -> Vec<Job> {
     let sub = subset12();
     let small: [(usize, usize); 6] = [(0, 0), (1, 0), (0, 1), (3, 0), (0, 3), (3, 3)];
     let big: [(usize, usize); 3] = [(BIG, 0), (0, BIG), (BIG, 3)];
-    let carriers = [Carrier::whole(), Carrier::chunk1(), Carrier::write1()];
+    let carriers = [Carrier::whole(), Carrier::chunk1(), Carrier::write1(), Carrier::buffered()];
     let push_grid = |sub_name: &'static str, pairs: &[(Vec<String>, Vec<String>)], pays: &[(usize, usize)], jobs: &mut Vec<Job>| {
         for car in &carriers {
             for &(pd, pl) in pays {
@@ -1138,6 +1146,17 @@ fn build_jobs(thorough: bool) -> Vec<Job> {
             for ver in Ver::ALL {
                 for pairing in Pairing::ALL {
                     jobs.push(Job { sub: "pending_le2", case: mk(d, l, ver, pairing, Carrier::whole(), pd, pl), expand: Expand::Pending2, want_sample: false });
+                }
+            }
+        }
+    }
+    // E. the same single injections on a carrier that only delivers what has been flushed: a flush answered with
+    // Pending must be resumed, or the frames never leave
+    for (pd, pl) in [(3, 0), (0, 3)] {
+        for (d, l) in if thorough { &grid } else { &sub } {
+            for ver in Ver::ALL {
+                for pairing in Pairing::ALL {
+                    jobs.push(Job { sub: "pending_1_buffering_carrier", case: mk(d, l, ver, pairing, Carrier::buffered(), pd, pl), expand: Expand::Pending1, want_sample: false });
                 }
             }
         }
